@@ -237,7 +237,29 @@ func rleLens(r *Rng, all []int, mode int) []clSym {
 		for i+run < len(all) && all[i+run] == v {
 			run++
 		}
-		use := mode == 1 || (mode == 2 && r.Bool())
+		use := mode == 1 || (mode == 2 && r.Bool()) || mode == 3
+		if mode == 3 && v == 0 && run >= 4 && r.Intn(3) != 0 {
+			// legal but unusual: part of a zero run as 0 / 17 / 18, then "repeat previous" (16) on a zero
+			k := run
+			if k > 6+138 {
+				k = 6 + 138
+			}
+			rep := r.Range(3, min2(6, k-1))
+			head := k - rep
+			switch {
+			case head >= 11:
+				out = append(out, clSym{18, uint32(head - 11), 7})
+			case head >= 3:
+				out = append(out, clSym{17, uint32(head - 3), 3})
+			default:
+				for j := 0; j < head; j++ {
+					out = append(out, clSym{0, 0, 0})
+				}
+			}
+			out = append(out, clSym{16, uint32(rep - 3), 2})
+			i += k
+			continue
+		}
 		if use && v == 0 && run >= 3 {
 			n := run
 			if n > 138 {
@@ -290,6 +312,21 @@ func dynHeader(r *Rng, w *bitW, final bool, litLens, distLens []int, rleMode, cl
 	}
 	all := append(append([]int{}, litLens[:nlit]...), distLens[:ndist]...)
 	syms := rleLens(r, all, rleMode)
+	if fault == "run-16-at-dist-start" {
+		// all literal/length lengths spelled out (the last one is non-zero), a small declared distance
+		// count, and a "repeat previous" run that starts on the first distance length and is longer
+		// than the declared count
+		for nlit > 257 && litLens[nlit-1] == 0 {
+			nlit--
+		}
+		ndist = r.Range(1, 5)
+		syms = rleLens(r, litLens[:nlit], 0)
+		n := r.Range(ndist+1, 6)
+		if n < 3 {
+			n = 3
+		}
+		syms = append(syms, clSym{16, uint32(n - 3), 2})
+	}
 	switch fault {
 	case "repeat-first":
 		syms = append([]clSym{{16, uint32(r.Intn(4)), 2}}, syms...)
@@ -451,7 +488,7 @@ type SynthSpec struct {
 
 var faultKinds = []string{"dist-too-far", "unassigned-lit", "unassigned-dist", "lit-oversubscribed", "dist-oversubscribed",
 	"cl-oversubscribed", "no-eob-code", "repeat-first", "run-past-count", "run-past-count-16", "stored-nlen", "reserved-type",
-	"sym-286", "dist-sym-30", "empty-dist-used", "missing-eob"}
+	"sym-286", "dist-sym-30", "empty-dist-used", "missing-eob", "run-16-at-dist-start"}
 
 // Synthesize returns the stream, the bytes it decodes to (up to the fault, if any), whether it is
 // valid for a strict inflater (complete codes), and a short description of its shape.
@@ -463,6 +500,9 @@ func (sp SynthSpec) Synthesize() (stream []byte, data []byte, strict bool, shape
 	kinds := sp.Kinds
 	if kinds == "" {
 		kinds = "sfd"
+	}
+	if kinds == "E" {
+		return sp.synthWindowEdge(r)
 	}
 	for b := 0; b < sp.Blocks; b++ {
 		final := b == sp.Blocks-1
@@ -623,10 +663,10 @@ func (sp SynthSpec) Synthesize() (stream []byte, data []byte, strict bool, shape
 			}
 			hdrFault := ""
 			switch fault {
-			case "repeat-first", "run-past-count", "run-past-count-16", "cl-oversubscribed":
+			case "repeat-first", "run-past-count", "run-past-count-16", "cl-oversubscribed", "run-16-at-dist-start":
 				hdrFault = fault
 			}
-			dynHeader(r, w, final, litLens, distLens, r.Intn(3), r.Intn(4), hdrFault)
+			dynHeader(r, w, final, litLens, distLens, r.Intn(4), r.Intn(4), hdrFault)
 			shape += "D"
 			if fault != "" {
 				shape += "!"
@@ -776,4 +816,74 @@ func allZero(l []int) bool {
 		}
 	}
 	return true
+}
+
+// synthWindowEdge: the decoded output is brought to just below a multiple of the decoder's
+// 64 KiB output window by stored blocks; then follow non-final dynamic blocks over a tiny
+// alphabet (1-3 bit codes, so that lookup entries pack several symbols) mixing literals and
+// short matches across the window edge; then an empty final block.  Delivered one byte at a
+// time, every split point inside the symbols that straddle the edge is exercised.
+func (sp SynthSpec) synthWindowEdge(r *Rng) (stream []byte, data []byte, strict bool, shape string) {
+	w := &bitW{}
+	strict = true
+	var out []byte
+	target := 65536*(1+r.Intn(2)) - r.Range(0, 7)
+	if sp.Size > 0 && r.Intn(4) == 0 {
+		target = 65536 + 32768*r.Intn(3) - r.Range(0, 7)
+	}
+	for len(out) < target {
+		n := target - len(out)
+		if n > 65535 {
+			n = 65535
+		}
+		w.bits(0, 1)
+		w.bits(0, 2)
+		w.align()
+		w.bits(uint32(n), 16)
+		w.bits(uint32(^n&0xffff), 16)
+		d := make([]byte, n)
+		for i := range d {
+			d[i] = byte('a' + r.Intn(3))
+		}
+		w.buf = append(w.buf, d...)
+		out = append(out, d...)
+		shape += "S"
+	}
+	for b := r.Range(1, 3); b > 0; b-- {
+		var toks []tok
+		usedL := make([]bool, 286)
+		usedD := make([]bool, 30)
+		usedL[256] = true
+		for k := r.Range(4, 40); k > 0; k-- {
+			if r.Intn(3) == 0 {
+				t := tok{Len: r.Range(3, 6), Dist: r.Range(1, 4)}
+				toks = append(toks, t)
+				for i := 0; i < t.Len; i++ {
+					out = append(out, out[len(out)-t.Dist])
+				}
+				ls, _, _ := lenSym(t.Len, false)
+				usedL[ls] = true
+				ds, _, _ := distSym(t.Dist)
+				usedD[ds] = true
+			} else {
+				c := byte('a' + r.Intn(3))
+				toks = append(toks, tok{Lit: c})
+				out = append(out, c)
+				usedL[c] = true
+			}
+		}
+		litLens, _, _ := codeFor(r, 286, usedL, 15, 0, 0, false)
+		distLens, _, _ := codeFor(r, 30, usedD, 15, 0, 0, false)
+		dynHeader(r, w, false, litLens, distLens, 1, 0, "")
+		writeTokens(w, toks, litLens, distLens, true)
+		shape += "D"
+		if !isComplete(litLens, 15) || !(isComplete(distLens, 15) || single1(distLens) || allZero(distLens)) {
+			strict = false
+		}
+	}
+	w.bits(1, 1)
+	w.bits(1, 2)
+	w.bits(0, 7) // end-of-block code of the fixed code
+	shape += "F"
+	return w.bytes(), out, strict, shape
 }
